@@ -140,9 +140,11 @@ void generate(uint64_t seed, const Str& profile, Desc& d, bool exceptions) {
     bool emptyGroupName = (f.alphaNames && world.chance(1, 8)) || ((f.teamcity || f.junit) && world.chance(1, 12));      // shells built through the API may carry the group name ""
     for (int g = 0; g < nGroups; g++) { gnames.push_back(pickName(world, f, "G", g, true)); if (emptyGroupName && world.chance(1, 3)) gnames.back() = ""; gfiles.push_back(f.special_xml || f.special_tc ? pickName(world, f, "dir/f", g, false) + ".cpp" : sfmt("f%d.cpp", g)); }
     if ((f.junit || f.teamcity) && nGroups > 1) for (int g = 0; g < nGroups; g++) gnames[g] += sfmt("_%d", g);   // keep group names distinct
+    if ((f.junit || f.teamcity) && nGroups > 1 && world.chance(1, 6)) for (int g = 1; g < nGroups; g++) if (!gnames[g - 1].empty()) gnames[g] = gnames[g - 1] + (char)('a' + g);      // every group name continues the one before it (Net, Network, ...)
     if (f.special_tc) for (int g = 0; g < nGroups; g++) if (world.chance(1, 2)) gfiles[g] = Str("d/it's[") + (char)('a' + g) + "]|x.cpp";
 
     int opLine = 1000;
+    bool sameNames = (f.junit || f.teamcity) && world.chance(1, 8);
     bool emptyTestName = (f.alphaNames && world.chance(1, 8)) || ((f.teamcity || f.junit) && world.chance(1, 12));      // and the test name ""
     for (int t = 0; t < nTests; t++) {
         Group T; T.tag = "test";
@@ -150,7 +152,9 @@ void generate(uint64_t seed, const Str& profile, Desc& d, bool exceptions) {
         bool ign = f.ignored && world.chance(1, 8);
         line += (int)world.range(1, 20);
         T.args.push_back(ign); T.args.push_back(line);
-        T.sargs.push_back(gnames[(size_t)g]); T.sargs.push_back(pickName(world, f, "t", t, true)); if (emptyTestName && world.chance(1, 4)) T.sargs.back() = ""; T.sargs.push_back(gfiles[(size_t)g]);
+        T.sargs.push_back(gnames[(size_t)g]); T.sargs.push_back(pickName(world, f, "t", t, true)); if (emptyTestName && world.chance(1, 4)) T.sargs.back() = "";
+        if (sameNames && t > 0 && world.chance(1, 3)) { for (size_t q = d.groups.size(); q-- > 0;) if (d.groups[q].tag == "test" && Str(d.groups[q].sarg(0)) == gnames[(size_t)g]) { T.sargs.back() = d.groups[q].sarg(1); break; } }      // the name of an earlier test of the same group (two files may define the same TEST)
+        T.sargs.push_back(gfiles[(size_t)g]);
         for (int ph = 0; ph < 3; ph++) {
             int nOps = (int)world.small(0, 10);
             bool wantFail = f.failures && (faults.below(10) < failDensity);
